@@ -20,7 +20,7 @@ func init() {
 	register(&propDef{
 		ID: "C09",
 		Meta: propMeta{
-			Explanation: "Decides structural necessary conditions (nothing is executed): (R09a) in every function reachable from a Transformer.GetReader implementation, each sequential read of the source file (the file handed to a callee as an io.Reader, returned as the upload stream, or read directly) is preceded on every path — since function entry, since the previous sequential read and since any seek-to-end — by a Seek with whence 0 on that same file, so that the stream is the same on every call; implementations that only use ReadAt need nothing; (R09b) remotecmd.doRequest builds a fresh request (and through buildRequest obtains a fresh body from GetReader) inside the failover loop and sends exactly that request; the 406 fallback and every retry go through the same construction; (R09c) codec tables agree: the encodings setupCompression can produce are exactly those decompress can read, every preference key is among them, and the advertised Accept-Encoding list is exactly the preference keys; (R09d) header and body agree: wherever a Content-Encoding header is set, the value is the very value handed to the compressor for that body; (R09e) each zip-based server-side signer reads its input once, through zipslicer.ReadZipTar on the request stream; (R09f) where a transformer slurps a non-seekable source through io.LimitReader with a constant cap, a length test that the capped result can satisfy follows (no silent truncation of what is uploaded); (R09g) the reader wrapped by compresshttp.readBlocker is touched only by its Read method behind the closed-flag test and by Close, so an abandoned attempt's compressor cannot keep reading the shared source. (R09h) in doRequest a plain Close of the request body lies on every path from Do to the block that builds the next attempt (a deferred Close runs only when the function returns, so an abandoned attempt would go on reading the shared file); (R09i) no deferred function assigns to a named error result a value that may be nil without testing it or the result first, module-wide; (R09j) the loop of blockMap.AddFile that reads an appx member leaves towards the success return only on the io.EOF edge. (R09k) every function stored into http.Request.GetBody returns a reader made inside it, not a captured reader value, so a replay by the HTTP stack sends the whole body again. (R09m) every return of compresshttp.(*readBlocker).Close that can carry a nil error comes after the store that sets its closed flag, so the compressor goroutine of a finished attempt cannot read the shared input while the next attempt re-reads it. (R09l) the flag digestApkStream passes to merkleHasher.Finish is the constant that selects the branch of Finish calling Directory.WriteDirectory (derived from Finish), the serialiser whose end-of-directory record (*Digest).Sign patches into the file: the record digested is the record written.",
+			Explanation: "Decides structural necessary conditions (nothing is executed): (R09a) in every function reachable from a Transformer.GetReader implementation, each sequential read of the source file (the file handed to a callee as an io.Reader, returned as the upload stream, or read directly) is preceded on every path — since function entry, since the previous sequential read and since any seek-to-end — by a Seek with whence 0 on that same file, so that the stream is the same on every call; implementations that only use ReadAt need nothing; (R09b) remotecmd.doRequest builds a fresh request (and through buildRequest obtains a fresh body from GetReader) inside the failover loop and sends exactly that request; the 406 fallback and every retry go through the same construction; (R09c) codec tables agree: the encodings setupCompression can produce are exactly those decompress can read, every preference key is among them, and the advertised Accept-Encoding list is exactly the preference keys; (R09d) header and body agree: wherever a Content-Encoding header is set, the value is the very value handed to the compressor for that body; (R09e) each zip-based server-side signer reads its input once, through zipslicer.ReadZipTar on the request stream; (R09f) where a transformer slurps a non-seekable source through io.LimitReader with a constant cap, a length test that the capped result can satisfy follows (no silent truncation of what is uploaded); (R09g) the reader wrapped by compresshttp.readBlocker is touched only by its Read method behind the closed-flag test and by Close, so an abandoned attempt's compressor cannot keep reading the shared source. (R09h) in doRequest a plain Close of the request body lies on every path from Do to the block that builds the next attempt (a deferred Close runs only when the function returns, so an abandoned attempt would go on reading the shared file); (R09i) no deferred function assigns to a named error result a value that may be nil without testing it or the result first, module-wide; (R09j) the loop of blockMap.AddFile that reads an appx member leaves towards the success return only on the io.EOF edge. (R09k) every function stored into http.Request.GetBody returns a reader made inside it, not a captured reader value, so a replay by the HTTP stack sends the whole body again. (R09m) every return of compresshttp.(*readBlocker).Close that can carry a nil error comes after the store that sets its closed flag, so the compressor goroutine of a finished attempt cannot read the shared input while the next attempt re-reads it. (R09l) the flag digestApkStream passes to merkleHasher.Finish is the constant that selects the branch of Finish calling Directory.WriteDirectory (derived from Finish), the serialiser whose end-of-directory record (*Digest).Sign patches into the file: the record digested is the record written. (R09n) no function reachable from a Transformer's GetReader takes a bytes.Reader / bytes.Buffer / strings.Reader / bufio.Reader out of a field of a struct the transformer owns without rewinding it in the same function: a second GetReader (failover, 406 fallback) must stream the same bytes.",
 			NotDecided:  "independence of the block hashers (APK merkle, appx block map, PE page hashes) from Write sizes; equality of the digest computed from the tar stream and from the patched file; correctness of gzip/snappy; that a second GetReader call does not race with a still-running producer goroutine of the first.",
 			Assumptions: []string{"os.File.Seek(0, io.SeekStart) repositions reliably", "net/http sends the body it is given once"},
 		},
@@ -29,6 +29,7 @@ func init() {
 }
 
 func runC09(c *Ctx) {
+	defer round7C09(c)
 	c.Rule("R09a", "every sequential read of the source file on the upload path is preceded by a rewind of that file", 6)
 	c.Rule("R09b", "a fresh request and body are built for every attempt and that request is the one sent", 4)
 	c.Rule("R09c", "compression codec tables agree between encoder, decoder, preferences and advertisement", 5)
